@@ -165,3 +165,86 @@ func VH22c_inproc_mismatch() {
 	cli.Close()
 	srv.Close()
 }
+
+// VH22d_inproc_close: Close against inproc activity in every phase: a dial
+// that is waiting for the listener's accept loop (busy in a slow Attaching
+// hook) when the listening socket closes must return (refused), a later dial
+// to the released address is refused at once, the address can be bound again,
+// and after all sockets are closed no goroutine is left (C10, C12).
+func VH22d_inproc_close() {
+	lab := "C10/inproc"
+	srv := vp.New("bus")
+	gate := make(chan struct{})
+	held := 0
+	srv.SetPipeEventHook(func(ev mangos.PipeEvent, p mangos.Pipe) {
+		if ev == mangos.PipeEventAttaching && held == 0 {
+			held++
+			<-gate // the application's hook is slow: the accept loop is busy
+		}
+	})
+	verif.Assert(srv.Listen("inproc://cl") == nil, lab+"/listen")
+	verif.Quiesce()
+	c1 := vp.New("bus")
+	var e1 error
+	g1 := verif.Go("dial-1", func() { e1 = c1.Dial("inproc://cl") })
+	verif.Quiesce()
+	verif.Assert(g1.Done() && e1 == nil, lab+"/first-dial")
+	// the accept loop is now stuck in the hook: a second dial has to wait
+	c2 := vp.New("bus")
+	asynch := verif.Choice("asynch", 2) == 1
+	if asynch {
+		c2.SetOption(mangos.OptionDialAsynch, true)
+	}
+	var e2 error
+	g2 := verif.Go("dial-2", func() { e2 = c2.Dial("inproc://cl") })
+	verif.Quiesce()
+	if !asynch {
+		verif.Assert(!g2.Done(), lab+"/second-dial-completed-although-nobody-accepts")
+	}
+	order := verif.Choice("close-first", 2)
+	var cg *verif.G
+	if order == 0 {
+		// the listening socket closes while the dial waits
+		cg = verif.Go("close-srv", func() { srv.Close() })
+		verif.Quiesce()
+		close(gate)
+		verif.Quiesce()
+		verif.Assert(cg.Done(), lab+"/close-does-not-return")
+		verif.Assert(g2.Done(), lab+"/dial-still-waiting-after-the-listener-closed")
+		if g2.Done() && !asynch {
+			verif.Assert(e2 != nil, lab+"/dial-to-a-closed-listener-succeeded")
+		}
+		// the address is released: a fresh dial is refused at once, a new listener can bind it
+		c3 := vp.New("bus")
+		var e3 error
+		g3 := verif.Go("dial-3", func() { e3 = c3.Dial("inproc://cl") })
+		verif.Quiesce()
+		verif.Assert(g3.Done(), lab+"/dial-to-released-address-blocks")
+		if g3.Done() {
+			verif.Assert(e3 == mangos.ErrConnRefused, lab+"/dial-to-released-address-error-kind")
+		}
+		srv2 := vp.New("bus")
+		verif.Assert(srv2.Listen("inproc://cl") == nil, lab+"/address-not-released-by-close")
+		verif.Quiesce()
+		srv2.Close()
+		c3.Close()
+		verif.Reach("listener-closed-under-waiting-dial")
+	} else {
+		// the dialing socket closes while its dial waits; then the accept loop resumes
+		cg = verif.Go("close-c2", func() { c2.Close() })
+		verif.Quiesce()
+		close(gate)
+		verif.Quiesce()
+		verif.Assert(cg.Done(), lab+"/close-does-not-return")
+		srv.Close()
+		verif.Reach("dialer-closed-while-waiting")
+	}
+	c1.Close()
+	c2.Close()
+	verif.Quiesce()
+	for i := 0; i < 4; i++ {
+		verif.FireTimer()
+	}
+	verif.Assert(g2.Done(), lab+"/dial-never-returned")
+	verif.Assert(verif.LiveGoroutines() == 0, lab+"/goroutines-left-after-close")
+}
